@@ -739,6 +739,31 @@ let cmd_bit (args : string list) : string =
      | None -> "skip sequence-block-not-in-the-full-state")
   | _ -> "err badcmd"
 
+(* ---------- undo / redo over nested scopes (Crdt/Redo.v): the renders of the roots after every action of a program ---------- *)
+let cmd_rdo (args : string list) : string =
+  let nums s = if s = "_" || s = "" then [] else List.map n_of_hex (String.split_on_char ',' s) in
+  let path s = if s = "_" then [] else List.map (fun t -> let v = String.sub t 1 (String.length t - 1) in
+    if t.[0] = 'i' then RdoIdx (nat_of_int (int_of_string ("0x" ^ v))) else RdoKey (n_of_hex v)) (String.split_on_char '/' s) in
+  let cnt s = let v = n_of_hex (String.sub s 1 (String.length s - 1)) in if s.[0] = 'v' then RdoVal v else RdoType v in
+  let nat s = nat_of_int (int_of_string ("0x" ^ s)) in
+  let op s = (match String.split_on_char '.' s with
+    | ["I"; r; p; pos; c] -> RdoOIns (n_of_hex r, path p, nat pos, cnt c)
+    | ["D"; r; p; pos] -> RdoODel (n_of_hex r, path p, nat pos)
+    | ["E"; r; p; k; c] -> RdoOSet (n_of_hex r, path p, n_of_hex k, cnt c)
+    | ["M"; r; p; k] -> RdoORem (n_of_hex r, path p, n_of_hex k)
+    | _ -> failwith "rdo op") in
+  let ops s = if s = "_" then [] else List.map op (String.split_on_char ',' s) in
+  match args with
+  | ["run"; scope; roots; prog] ->
+    let acts = List.map (fun a -> match a.[0] with
+      | 'U' -> RdoAUndo | 'R' -> RdoARedo
+      | 'O' -> RdoAOther (ops (String.sub a 1 (String.length a - 1)))
+      | _ -> RdoAStep (List.map ops (String.split_on_char '|' (String.sub a 1 (String.length a - 1))))) (String.split_on_char ';' prog) in
+    let rs = rdo_renders (rdo_state0 (nums scope)) (nums roots) acts in
+    if List.length rs <> List.length acts then "fail after " ^ string_of_int (List.length rs) ^ " actions" else
+    "ok " ^ String.concat ";" (List.map (fun per_root -> String.concat "|" (List.map (fun l -> String.concat "," (List.map hex_of_n l)) per_root)) rs)
+  | _ -> "err badcmd"
+
 (* ---------- codecs ---------- *)
 let print_idm (v : (n * ((n * n) * ((n list * any) option) list) list) list) : string =
   let pa = function None -> "?" | Some (nm, vl) -> rawhex nm ^ "=" ^ print_any vl in
@@ -1069,6 +1094,7 @@ let dispatch (line : string) : string =
   | "YIB" :: args -> cmd_yib args
   | "EVD" :: args -> cmd_evd args
   | "BIT" :: args -> cmd_bit args
+  | "RDO" :: args -> cmd_rdo args
   | "DEC" :: args -> cmd_dec args
   | "ENC" :: args -> cmd_enc args
   | ["PING"] -> "ok pong"
